@@ -28,7 +28,8 @@ RULE = ("for each configuration (all generators, kwargs, seeds {0,42,7,2^31-1,ra
 ASSUMPTIONS = ["serial generation only (the statement excludes parallel generation)", "torch/numpy seeding is deterministic on this platform"]
 NSHARDS = {"quick": 16, "thorough": 16}
 OPS = ["consume-random", "consume-numpy", "consume-torch", "reseed-random", "reseed-numpy", "reseed-torch", "other-config",
-       "generate-other", "from_config-other", "generate-other-parallel", "tokenize-shuffling", "call-generator", "same-config-again"]
+       "generate-other", "from_config-other", "generate-other-parallel", "tokenize-shuffling", "call-generator", "same-config-again",
+       "read-saved-dataset", "read-damaged-file", "from_config-meets-damaged-cache"]
 THRESHOLDS = {"quick": {**{f"c04:op:{o}": 10 for o in OPS}, "c04:configs": 40, "c04:histories": 200, "c04:hashseeds": 3,
                         "c04:from_config": 40, "c04:verbose-runs": 60, "c04:configs>=1000-mazes": 2, "c04:configs-dedup-then-cut": 8, "c04:from_config-with-filters": 15, "c04:cfg-unchanged-checked": 200,
                         "c04:child-processes": 30, "c04:gen:gen_dfs": 1, "c04:gen:gen_wilson": 1, "c04:gen:gen_percolation": 1,
@@ -169,6 +170,47 @@ def history_ops(ctx, rng, specs, spec, P_state):
             elif op == "call-generator":
                 g = ["gen_dfs", "gen_wilson", "gen_percolation", "gen_dfs_percolation"][int(rng.integers(4))]
                 GENERATORS_MAP[g](np.array([3, 3]))
+            elif op in ("read-saved-dataset", "read-damaged-file", "from_config-meets-damaged-cache"):
+                # earlier reads of saved datasets in the same process: a good file, a half-written / foreign one the caller recovers from,
+                # and the config-driven entry point finding such a file where its cache would be
+                o = specs[int(rng.integers(len(specs)))]
+                ocfg = c04_child.make_cfg(dict(o, seed=int(rng.integers(1 << 30)), n_mazes=2), with_filters=False)
+                d = os.path.join(ctx.work, f"c04-reads-{os.getpid()}")
+                os.makedirs(d, exist_ok=True)
+                pth = os.path.join(d, ocfg.to_fname() + ".zanj")
+                try:
+                    if op == "read-saved-dataset":
+                        MazeDataset.generate(ocfg).save(pth)
+                        MazeDataset.read(pth)
+                    else:
+                        kind_bad = int(rng.integers(3))
+                        if kind_bad == 0:
+                            MazeDataset.generate(ocfg).save(pth)
+                            blob = open(pth, "rb").read()
+                            open(pth, "wb").write(blob[: max(8, len(blob) // 2)])
+                        elif kind_bad == 1:
+                            open(pth, "wb").write(b"not a zanj file")
+                        else:
+                            import zipfile
+                            with zipfile.ZipFile(pth, "w") as zf:
+                                zf.writestr("__zanj__.json", "{ this is not json")
+                        if op == "read-damaged-file":
+                            try:
+                                MazeDataset.read(pth)
+                                ctx.tally("c04:damaged-file-read-without-error(observed)")
+                            except Exception:  # noqa: BLE001
+                                ctx.tally("c04:damaged-file-read-raised")
+                        else:
+                            try:
+                                MazeDataset.from_config(ocfg, load_local=True, save_local=False, do_download=False, local_base_path=d)
+                                ctx.tally("c04:from_config-recovered-from-damaged-cache")
+                            except Exception:  # noqa: BLE001
+                                ctx.tally("c04:from_config-raised-on-damaged-cache")
+                except ValueError:
+                    pass
+                finally:
+                    if os.path.exists(pth):
+                        os.unlink(pth)
             elif op == "same-config-again":
                 try:
                     MazeDataset.generate(c04_child.make_cfg(spec, with_filters=False))
